@@ -2,6 +2,7 @@ import CoreBGP.Model.Peer
 import CoreBGP.Model.Server
 import CoreBGP.Spec.Server
 import CoreBGP.Lemmas.Peer
+import CoreBGP.Lemmas.PeerLocal
 import CoreBGP.Props.C20
 /-!
 # C13 — only connections from configured peers to the configured address are served
@@ -13,21 +14,34 @@ the peer is not held down, has no inbound FSM and its outbound FSM is not Establ
 -/
 namespace CoreBGP.Props.C13
 open CoreBGP CoreBGP.Model
+open CoreBGP.Lemmas.PeerLocal
 
 /-- stage 1 is the specified predicate over the abstract registry: handed over iff a peer with that
 remote address exists and (no local address configured or it equals the destination) -/
 theorem admit_spec (s : Server) (src dst : Addr) :
     s.admit src dst = Spec.admits (CoreBGP.Props.C20.abs s) src dst := by
-  sorry
+  unfold Server.admit Spec.admits CoreBGP.Props.C20.abs
+  cases hl : s.lookup src with
+  | none => rfl
+  | some c =>
+    simp only [Addr.isValid]
+    by_cases hk : c.localAddr.kind = .invalid
+    · simp [hk]
+    · by_cases hd : c.localAddr = dst
+      · simp [hd]
+      · simp [hk, hd]
 
 /-- … and it changes nothing: admission is a pure function of the registry (no peer's component
 changes, whatever the outcome) -/
 theorem admit_unknown_source (s : Server) (src dst : Addr) (h : s.lookup src = none) : s.admit src dst = none := by
-  sorry
+  unfold Server.admit
+  rw [h]
 
 theorem admit_wrong_destination (s : Server) (src dst : Addr) (c : PeerCfg) (h : s.lookup src = some c)
     (hl : c.localAddr.kind ≠ .invalid) (hd : c.localAddr ≠ dst) : s.admit src dst = none := by
-  sorry
+  unfold Server.admit
+  rw [h]
+  simp [Addr.isValid, hl, hd]
 
 /-- stage 2: the manager creates an inbound FSM iff not held down, no inbound FSM exists and the
 outbound FSM is not recorded Established; otherwise the connection is just closed: the state is
@@ -35,7 +49,30 @@ unchanged -/
 theorem busy (s : PState) (a : Bool) (s' : PState) (h : (Label.inConn a, s') ∈ pMain s) :
     (a = true ↔ (s.holdDown = false ∧ s.presentI = false ∧ s.stO ≠ .established)) ∧
     (a = false → s' = s) ∧ (a = true → s' = { s with todo := [.enable .inn true] }) := by
-  sorry
+  have h := mem_pMain_inConn h
+  split at h
+  · rename_i hc
+    rw [List.mem_singleton] at h
+    obtain ⟨ha, rfl⟩ := Prod.mk.inj h
+    have ha : a = false := by injection ha
+    subst ha
+    refine ⟨?_, fun _ => rfl, fun h => (by cases h)⟩
+    simp only [Bool.or_eq_true, decide_eq_true_eq] at hc
+    constructor
+    · intro h; cases h
+    · rintro ⟨h1, h2, h3⟩
+      rcases hc with (hc | hc) | hc
+      · rw [h1] at hc; cases hc
+      · rw [h2] at hc; cases hc
+      · exact absurd hc h3
+  · rename_i hc
+    rw [List.mem_singleton] at h
+    obtain ⟨ha, rfl⟩ := Prod.mk.inj h
+    have ha : a = true := by injection ha
+    subst ha
+    refine ⟨?_, fun h => (by cases h), fun _ => rfl⟩
+    simp only [Bool.or_eq_true, decide_eq_true_eq, not_or, Bool.not_eq_true] at hc
+    exact ⟨fun _ => ⟨hc.1.1, hc.1.2, hc.2⟩, fun _ => rfl⟩
 
 /-- an admitted connection becomes an FSM that starts in Active holding the connection (it sends
 its OPEN from there); nothing else changes -/
@@ -43,6 +80,7 @@ theorem admitted_starts_active (s : PState) (rest : List Instr) (h : s.presentI 
     pInstr s (.enable .inn true) rest =
       [(.tau, (({ s with todo := rest }.setPresent .inn true).setSt .inn .disabled).setF .inn
           { pc := .req ⟨.disabled, .active⟩, conn := true })] := by
-  sorry
+  have hp : s.present .inn = false := h
+  simp [pInstr, hp]
 
 end CoreBGP.Props.C13
